@@ -1,5 +1,581 @@
+/-
+  C01 — Waveform sample buffers match a plain list model after every operation history.
+-/
 import NiVerif.Model.Wfm
+import NiVerif.Proofs.WfmLemmas
+
 namespace Props.C01
-open Model.Wfm
-theorem stub : WTiming.empty.mode = .none := rfl
+open Model.Wfm Proofs.Wfm
+
+def RowsOk (n : Nat) (rows : List Row) : Prop := ∀ r ∈ rows, r.length = n
+
+/-- 0 ≤ start_index, start_index + sample_count ≤ capacity, every buffer row has signal_count columns -/
+def Inv (w : W) : Prop :=
+  w.start + w.count ≤ w.capacity ∧ RowsOk w.ncols w.buf ∧ (w.kind ≠ .digital → w.ncols = 1)
+
+/-- a well-formed ndarray argument: rectangular, a 1-D array has one column -/
+def ArrOk (a : Arr) : Prop := RowsOk a.ncols a.rows ∧ (a.ndim = 1 → a.ncols = 1)
+
+/-- the data view has exactly sample_count samples and signal_count columns -/
+theorem view_shape (w : W) (h : Inv w) : w.view.length = w.count ∧ RowsOk w.ncols w.view := by
+  obtain ⟨h1, h2, _⟩ := h
+  unfold W.view W.capacity at *
+  refine ⟨by simp only [List.length_take, List.length_drop]; omega, ?_⟩
+  intro r hr
+  exact h2 r (List.mem_of_mem_drop (List.mem_of_mem_take hr))
+
+/-! ### construction -/
+
+theorem ctorNew_spec (kind : Kind) (dtype : Nat) (dok : Bool) (count ncols start cap : Option Int) (fill : Int)
+    (props : List (String × String)) (timing : Option WTiming) (scale : Int) (w : W)
+    (h : ctorNew kind dtype dok count ncols start cap fill props timing scale = .ok w) :
+    Inv w ∧ w.view = List.replicate w.count (zeroRow w.ncols fill)
+    ∧ (w.count : Int) = count.getD 0 ∧ (w.start : Int) = start.getD 0 := by
+  unfold ctorNew at h
+  unwind h
+  all_goals
+    injection h with h; subst h
+    have hg := newGeom_ok _ _ _ _ (by assumption)
+    refine ⟨⟨?_, ?_, ?_⟩, ?_, hg.2.1, hg.1⟩
+    · simp only [W.capacity, List.length_replicate]; omega
+    · intro r hr; simp only [List.mem_replicate] at hr; rw [hr.2]; simp [zeroRow]
+    · intro hk; first | (exfalso; exact hk (by assumption)) | rfl
+    · simp only [W.view]
+      exact view_replicate _ _ _ _ (by omega)
+
+theorem ctorArr_spec (kind : Kind) (a : Arr) (dreq : Option Nat) (dok : Bool) (start count ncols cap : Option Int)
+    (props : List (String × String)) (timing : Option WTiming) (scale : Int) (w : W) (ha : ArrOk a)
+    (h : ctorArr kind a dreq dok start count ncols cap props timing scale = .ok w) :
+    Inv w ∧ w.view = (a.rows.drop w.start).take w.count
+      ∧ (w.start : Int) = start.getD 0 ∧ (w.count : Int) = count.getD ((a.rows.length : Int) - start.getD 0)
+      ∧ w.start + w.count ≤ a.rows.length
+      ∧ w.buf = a.rows ∧ w.kind = kind ∧ w.dtype = a.dtype ∧ w.ncols = a.ncols
+      ∧ w.timing = timing.getD WTiming.empty ∧ w.props = props ∧ w.scale = scale := by
+  unfold ctorArr at h
+  unwind h
+  injection h with h; subst h
+  have hg := window_ok _ _ _ _ (by assumption)
+  have hc : checkArr kind a dreq dok = .ok () := by assumption
+  refine ⟨⟨?_, ha.1, ?_⟩, rfl, hg.1, hg.2.1, ?_, rfl, rfl, rfl, rfl, rfl, rfl, rfl⟩
+  · simp only [W.capacity]; omega
+  · intro hk
+    simp only at hk ⊢
+    unfold checkArr at hc
+    unwind hc
+    have : a.ndim = 1 := by
+      by_cases hd : a.ndim = 1
+      · exact hd
+      · rename_i hnd _ _ _
+        exact absurd ⟨hk, hd⟩ hnd
+    exact ha.2 this
+  · simp only; omega
+
+/-! ### capacity, sample_count, timing, writes, reads -/
+
+theorem setCapacity_spec (w : W) (v : Option Int) (w' : W) (hi : Inv w) (h : setCapacity w v = .ok w') :
+    Inv w' ∧ w'.view = w.view ∧ w'.count = w.count ∧ w'.start = w.start ∧ w'.ncols = w.ncols ∧ w'.kind = w.kind
+    ∧ w'.timing = w.timing ∧ w'.props = w.props ∧ w'.dtype = w.dtype ∧ w'.scale = w.scale
+    ∧ (w'.capacity : Int) = v.getD 0 ∧ w'.namesCache = w.namesCache := by
+  obtain ⟨h1, h2, h3⟩ := hi
+  unfold setCapacity at h
+  unwind h
+  · injection h with h; subst h
+    refine ⟨⟨h1, h2, h3⟩, rfl, rfl, rfl, rfl, rfl, rfl, rfl, rfl, rfl, ?_, rfl⟩
+    omega
+  · injection h with h; subst h
+    have hlen : ((w.buf ++ List.replicate ((v.getD 0).toNat - w.capacity) (zeroRow w.ncols 0)).take (v.getD 0).toNat).length
+        = (v.getD 0).toNat := by
+      simp only [List.length_take, List.length_append, List.length_replicate, W.capacity] at *; omega
+    refine ⟨⟨?_, ?_, h3⟩, ?_, rfl, rfl, rfl, rfl, rfl, rfl, rfl, rfl, ?_, rfl⟩
+    · simp only [W.capacity] at *; rw [hlen]; omega
+    · intro r hr
+      have := List.mem_of_mem_take hr
+      simp only [List.mem_append, List.mem_replicate] at this
+      rcases this with h | h
+      · exact h2 r h
+      · rw [h.2]; simp [zeroRow]
+    · simp only [W.view]
+      apply List.ext_getElem?
+      intro i
+      simp only [List.getElem?_take, List.getElem?_drop, List.getElem?_append]
+      by_cases hc : i < w.count
+      · simp only [W.capacity] at *
+        simp [hc, show w.start + i < (v.getD 0).toNat by omega, show w.start + i < w.buf.length by omega]
+      · simp [hc]
+    · simp only [W.capacity] at *; rw [hlen]; omega
+
+theorem setCount_spec (w : W) (v : Option Int) (w' : W) (hi : Inv w) (h : setCount w v = .ok w') :
+    Inv w' ∧ (w'.count ≤ w.count → w'.view = w.view.take w'.count)
+    ∧ (w.count ≤ w'.count → w'.view.take w.count = w.view) ∧ w'.buf = w.buf ∧ w'.start = w.start
+    ∧ (w'.count : Int) = v.getD 0 ∧ w'.ncols = w.ncols ∧ w'.kind = w.kind := by
+  obtain ⟨h1, h2, h3⟩ := hi
+  unfold setCount at h
+  unwind h
+  injection h with h; subst h
+  refine ⟨⟨by simp only [W.capacity] at *; omega, h2, h3⟩, ?_, ?_, rfl, rfl, by simp only; omega, rfl, rfl⟩
+  · intro hle
+    simp only [W.view, List.take_take] at *
+    rw [Nat.min_eq_left hle]
+  · intro hle
+    simp only [W.view, List.take_take] at *
+    rw [Nat.min_eq_left hle]
+
+theorem setTiming_spec (w : W) (t : WTiming) (w' : W) (hi : Inv w) (h : setTiming w t = .ok w') :
+    Inv w' ∧ w'.view = w.view ∧ w'.timing = t ∧ w'.ncols = w.ncols ∧ w'.kind = w.kind := by
+  unfold setTiming at h
+  split at h
+  · cases h
+  · injection h with h; subst h; exact ⟨hi, rfl, rfl, rfl, rfl⟩
+
+theorem writeView_spec (w : W) (i : Int) (row : Row) (w' : W) (hi : Inv w) (hr : row.length = w.ncols)
+    (h : writeView w i row = .ok w') :
+    Inv w' ∧ (∃ j : Nat, j < w.count ∧ (j : Int) = (if i < 0 then i + w.count else i) ∧ w'.view = w.view.set j row
+      ∧ w'.count = w.count) ∧ w'.ncols = w.ncols ∧ w'.kind = w.kind := by
+  obtain ⟨h1, h2, h3⟩ := hi
+  unfold writeView at h
+  simp only at h
+  generalize hjd : (if i < 0 then i + (w.count : Int) else i) = j at h
+  split at h
+  · cases h
+  · injection h with h; subst h
+    have hj0 : 0 ≤ j ∧ j < w.count := by omega
+    have hfit : w.start + j.toNat + [row].length ≤ w.buf.length := by
+      simp only [W.capacity, List.length_cons, List.length_nil] at *; omega
+    refine ⟨⟨?_, ?_, h3⟩, ⟨j.toNat, by omega, by omega, ?_, rfl⟩, rfl, rfl⟩
+    · simp only [W.capacity, writeAt_length _ _ _ hfit] at *; exact h1
+    · intro r hr'
+      rcases mem_writeAt _ _ _ _ hr' with h | h
+      · exact h2 r h
+      · simp at h; rw [h]; exact hr
+    · simp only [W.view]
+      exact view_write _ _ _ _ _ (by simp only [W.capacity] at h1; exact h1) (by omega)
+
+/-- get_raw_data / get_data(start, count) is the corresponding sub-list of the view, or a ValueError -/
+theorem getData_spec (w : W) (start count : Option Int) :
+    (∀ rows, getData w start count = .ok rows →
+        ∃ s n : Nat, rows = (w.view.drop s).take n ∧ (s : Int) = start.getD 0
+          ∧ (n : Int) = count.getD ((w.count : Int) - start.getD 0) ∧ s + n ≤ w.count)
+    ∧ (∀ e, getData w start count = .error e → e.base = .ValueError) := by
+  constructor
+  · intro rows h
+    unfold getData at h
+    unwind h
+    injection h with h; subst h
+    have hg := window_ok _ _ _ _ (by assumption)
+    exact ⟨_, _, rfl, hg.1, hg.2.1, by omega⟩
+  · intro e h
+    unfold getData at h
+    simp only [bind, Except.bind, pure, Except.pure] at h
+    split at h
+    · injection h with h; subst h
+      exact window_err _ _ _ _ (by assumption)
+    · cases h
+
+/-! ### append, load -/
+
+theorem increaseCapacity_spec (w : W) (amount : Nat) (w1 : W) (hi : Inv w) (h : increaseCapacity w amount = .ok w1) :
+    Inv w1 ∧ w1.view = w.view ∧ w1.count = w.count ∧ w1.start = w.start ∧ w1.ncols = w.ncols ∧ w1.kind = w.kind
+    ∧ w1.timing = w.timing ∧ w1.props = w.props ∧ w1.dtype = w.dtype ∧ w1.scale = w.scale
+    ∧ w1.start + w1.count + amount ≤ w1.capacity ∧ w1.namesCache = w.namesCache := by
+  unfold increaseCapacity at h
+  split at h
+  · have hs := setCapacity_spec w _ w1 hi h
+    obtain ⟨a1, a2, a3, a4, a5, a6, a7, a8, a9, a10, a11, a12⟩ := hs
+    simp only [Option.getD_some] at a11
+    exact ⟨a1, a2, a3, a4, a5, a6, a7, a8, a9, a10, by omega, a12⟩
+  · injection h with h; subst h
+    exact ⟨hi, rfl, rfl, rfl, rfl, rfl, rfl, rfl, rfl, rfl, by omega, rfl⟩
+
+theorem checkInput_ok (w : W) (a : Arr) (h : checkInput w a = .ok ()) :
+    a.dtype = w.dtype ∧ (w.kind ≠ .digital → a.ndim = 1) := by
+  unfold checkInput at h
+  unwind h
+  rename_i h1 h2 _
+  refine ⟨by simpa using h1, fun hk => ?_⟩
+  by_cases hd : a.ndim = 1
+  · exact hd
+  · exact absurd ⟨hk, hd⟩ h2
+
+/-- appended samples are concatenated, in order, after the existing ones -/
+theorem appendArray_spec (w : W) (a : Arr) (ts : Option (List Int)) (tok : Bool) (w' : W) (hi : Inv w) (ha : ArrOk a)
+    (h : appendArray w a ts tok = .ok w') :
+    Inv w' ∧ w'.view = w.view ++ a.rows ∧ w'.count = w.count + a.rows.length ∧ w'.ncols = w.ncols
+    ∧ w'.kind = w.kind ∧ w'.dtype = w.dtype := by
+  unfold appendArray at h
+  unwind h
+  injection h with h; subst h
+  have hc := checkInput_ok w a (by assumption)
+  rename_i _ _ _ hsig _ _ _ _ _ nt _ _ w1 hw1
+  obtain ⟨i1, i2, i3, i4, i5, i6, _, _, i9, _, i11, _⟩ := increaseCapacity_spec w _ w1 hi hw1
+  obtain ⟨j1, j2, j3⟩ := i1
+  have hcols : RowsOk w1.ncols a.rows := by
+    rw [i5]
+    by_cases hk : w.kind = .digital
+    · have : a.ncols = w.ncols := by
+        by_cases he : a.ncols = w.ncols
+        · exact he
+        · exact absurd ⟨hk, he⟩ hsig
+      rw [← this]; exact ha.1
+    · have h1 := ha.2 (hc.2 hk)
+      rw [hi.2.2 hk, ← h1]; exact ha.1
+  have hfit : w1.start + w1.count + a.rows.length ≤ w1.buf.length := by simp only [W.capacity] at i11; exact i11
+  refine ⟨⟨?_, ?_, j3⟩, ?_, by simp only; omega, i5, i6, i9⟩
+  · simp only [W.capacity, writeAt_length _ _ _ hfit] at *; omega
+  · intro r hr
+    rcases mem_writeAt _ _ _ _ hr with h | h
+    · exact j2 r h
+    · exact hcols r h
+  · simp only [W.view] at *
+    rw [view_append _ _ _ _ hfit, i2]
+
+theorem mergeInto_frame (w : W) (o : List (String × String)) :
+    (mergeInto w o).buf = w.buf ∧ (mergeInto w o).start = w.start ∧ (mergeInto w o).count = w.count
+    ∧ (mergeInto w o).ncols = w.ncols ∧ (mergeInto w o).kind = w.kind ∧ (mergeInto w o).timing = w.timing
+    ∧ (mergeInto w o).dtype = w.dtype ∧ (mergeInto w o).scale = w.scale := ⟨rfl, rfl, rfl, rfl, rfl, rfl, rfl, rfl⟩
+
+/-- the copy loop of `_append_waveforms`: every source's visible samples, in source order -/
+theorem copyAll_spec : ∀ (os : List W) (w : W), Inv w → (∀ o ∈ os, Inv o ∧ o.ncols = w.ncols) →
+    w.start + w.count + (os.map (·.count)).sum ≤ w.capacity →
+    Inv (copyAll w os) ∧ (copyAll w os).view = w.view ++ os.flatMap (·.view)
+    ∧ (copyAll w os).count = w.count + (os.map (·.count)).sum ∧ (copyAll w os).ncols = w.ncols
+    ∧ (copyAll w os).kind = w.kind ∧ (copyAll w os).dtype = w.dtype ∧ (copyAll w os).timing = w.timing := by
+  intro os
+  induction os with
+  | nil => intro w hi _ _; simp [copyAll, hi]
+  | cons o os ih =>
+    intro w hi hos hroom
+    simp only [List.map_cons, List.sum_cons] at hroom
+    obtain ⟨ho, hcol⟩ := hos o (by simp)
+    obtain ⟨hlen, hrows⟩ := view_shape o ho
+    have hfit : w.start + w.count + o.view.length ≤ w.buf.length := by
+      simp only [W.capacity] at hroom; omega
+    let w1 : W := { w with buf := writeAt w.buf (w.start + w.count) o.view, count := w.count + o.count }
+    have hi1 : Inv (mergeInto w1 o.props) := by
+      refine ⟨?_, ?_, hi.2.2⟩
+      · show w.start + (w.count + o.count) ≤ (writeAt w.buf (w.start + w.count) o.view).length
+        rw [writeAt_length _ _ _ hfit]; simp only [W.capacity] at hroom; omega
+      · intro r hr
+        rcases mem_writeAt _ _ _ _ hr with h | h
+        · exact hi.2.1 r h
+        · have := hrows r h; rw [hcol] at this; exact this
+    have hv1 : (mergeInto w1 o.props).view = w.view ++ o.view := by
+      show ((writeAt w.buf (w.start + w.count) o.view).drop w.start).take (w.count + o.count) = _
+      rw [← hlen, view_append _ _ _ _ hfit]; rfl
+    have hroom1 : (mergeInto w1 o.props).start + (mergeInto w1 o.props).count + (os.map (·.count)).sum
+        ≤ (mergeInto w1 o.props).capacity := by
+      show w.start + (w.count + o.count) + _ ≤ (writeAt w.buf (w.start + w.count) o.view).length
+      rw [writeAt_length _ _ _ hfit]; simp only [W.capacity] at hroom; omega
+    have := ih (mergeInto w1 o.props) hi1 (fun x hx => by
+      obtain ⟨a, b⟩ := hos x (by simp [hx]); exact ⟨a, b⟩) hroom1
+    obtain ⟨k1, k2, k3, k4, k5, k6, k7⟩ := this
+    unfold copyAll
+    refine ⟨k1, ?_, ?_, k4, k5, k6, k7⟩
+    · rw [k2, hv1]; simp [List.flatMap_cons, List.append_assoc]
+    · rw [k3]; show w.count + o.count + _ = _; simp only [List.map_cons, List.sum_cons]; omega
+
+theorem checkSources_ok (w : W) : ∀ (os : List W), checkSources w os = .ok () →
+    ∀ o ∈ os, o.dtype = w.dtype ∧ (w.kind = .digital → o.ncols = w.ncols) := by
+  intro os
+  induction os with
+  | nil => intro _ o ho; cases ho
+  | cons x xs ih =>
+    intro h o ho
+    unfold checkSources at h
+    split at h
+    · cases h
+    · split at h
+      · cases h
+      · rename_i h1 h2
+        rcases List.mem_cons.1 ho with rfl | hm
+        · refine ⟨by simpa using h1, fun hk => ?_⟩
+          by_cases he : o.ncols = w.ncols
+          · exact he
+          · exact absurd ⟨hk, he⟩ h2
+        · exact ih h o hm
+
+/-- appending waveform(s): no sample lost, duplicated, reordered or invented -/
+theorem appendWaveforms_spec (w : W) (os : List W) (w' : W) (ws : List Warning) (hi : Inv w)
+    (hos : ∀ o ∈ os, Inv o ∧ o.kind = w.kind) (h : appendWaveforms w os = .ok (w', ws)) :
+    Inv w' ∧ w'.view = w.view ++ os.flatMap (·.view) ∧ w'.count = w.count + (os.map (·.count)).sum
+    ∧ w'.ncols = w.ncols ∧ w'.kind = w.kind ∧ w'.dtype = w.dtype := by
+  unfold appendWaveforms at h
+  unwind h
+  all_goals
+  injection h with h
+  injection h with h1 h2
+  subst h1
+  have hc := checkSources_ok w os (by assumption)
+  rename_i _ _ _ _ nt _ _ w1 hw1 _
+  obtain ⟨i1, i2, i3, i4, i5, i6, _, _, i9, _, i11, _⟩ := increaseCapacity_spec w _ w1 hi hw1
+  have hcols : ∀ o ∈ os, Inv o ∧ o.ncols = w1.ncols := by
+    intro o ho
+    obtain ⟨a, b⟩ := hos o ho
+    refine ⟨a, ?_⟩
+    rw [i5]
+    by_cases hk : w.kind = .digital
+    · exact (hc o ho).2 hk
+    · rw [hi.2.2 hk]; exact a.2.2 (by rw [b]; exact hk)
+  have := copyAll_spec os { w1 with timing := nt.1 } i1 hcols i11
+  obtain ⟨k1, k2, k3, k4, k5, k6, _⟩ := this
+  refine ⟨k1, ?_, ?_, ?_, ?_, ?_⟩
+  · rw [k2]; show w1.view ++ _ = _; rw [i2]
+  · rw [k3]; show w1.count + _ = _; rw [i3]
+  · rw [k4]; exact i5
+  · rw [k5]; exact i6
+  · rw [k6]; exact i9
+
+/-- loaded samples replace the old ones: exactly `array[start : start+count]` -/
+theorem loadData_spec (w : W) (a : Arr) (copy : Bool) (start count : Option Int) (w' : W) (hi : Inv w) (ha : ArrOk a)
+    (h : loadData w a copy start count = .ok w') :
+    Inv w' ∧ ∃ s n : Nat, w'.view = (a.rows.drop s).take n ∧ w'.count = n ∧ (s : Int) = start.getD 0
+      ∧ (n : Int) = count.getD ((a.rows.length : Int) - start.getD 0) ∧ s + n ≤ a.rows.length
+      ∧ w'.ncols = w.ncols ∧ w'.kind = w.kind := by
+  unfold loadData at h
+  unwind h
+  · -- copy=True
+    rename_i _ _ _ _ g _ _ hsig _ _ w1 hw1
+    have hc := checkInput_ok w a (by assumption)
+    have hg := window_ok _ _ _ g (by assumption)
+    have hcols : RowsOk w.ncols a.rows := by
+      by_cases hk : w.kind = .digital
+      · have : a.ncols = w.ncols := by
+          by_cases he : a.ncols = w.ncols
+          · exact he
+          · exact absurd ⟨hk, he⟩ hsig
+        rw [← this]; exact ha.1
+      · have h1 := ha.2 (hc.2 hk)
+        rw [hi.2.2 hk, ← h1]; exact ha.1
+    injection h with h; subst h
+    have hl : ((a.rows.drop g.1).take g.2).length = g.2 := by
+      simp only [List.length_take, List.length_drop]; omega
+    have hw : Inv w1 ∧ w1.ncols = w.ncols ∧ w1.kind = w.kind ∧ g.2 ≤ w1.capacity := by
+      split at hw1
+      · obtain ⟨i1, _, _, _, i5, i6, _, _, _, _, i11, _⟩ := setCapacity_spec w _ w1 hi hw1
+        simp only [Option.getD_some] at i11
+        exact ⟨i1, i5, i6, by omega⟩
+      · injection hw1 with hw1; subst hw1; exact ⟨hi, rfl, rfl, by omega⟩
+    obtain ⟨i1, i5, i6, icap⟩ := hw
+    have hfit : 0 + ((a.rows.drop g.1).take g.2).length ≤ w1.buf.length := by
+      simp only [W.capacity] at icap; omega
+    refine ⟨⟨?_, ?_, ?_⟩, g.1, g.2, ?_, rfl, hg.1, hg.2.1, by omega, i5, i6⟩
+    · simp only [W.capacity, writeAt_length _ _ _ hfit] at *; omega
+    · intro r hr
+      rcases mem_writeAt _ _ _ _ hr with h | h
+      · exact i1.2.1 r h
+      · rw [i5]; exact hcols r (List.mem_of_mem_drop (List.mem_of_mem_take h))
+    · intro hk; rw [i5]; exact hi.2.2 (by rw [← i6]; exact hk)
+    · simp only [W.view]
+      have := view_load w1.buf ((a.rows.drop g.1).take g.2) (by omega)
+      rw [hl] at this; exact this
+  · -- copy=False: the array becomes the buffer
+    rename_i _ _ _ _ g _ _ hsig _
+    have hc := checkInput_ok w a (by assumption)
+    have hg := window_ok _ _ _ g (by assumption)
+    have hcols : RowsOk w.ncols a.rows := by
+      by_cases hk : w.kind = .digital
+      · have : a.ncols = w.ncols := by
+          by_cases he : a.ncols = w.ncols
+          · exact he
+          · exact absurd ⟨hk, he⟩ hsig
+        rw [← this]; exact ha.1
+      · have h1 := ha.2 (hc.2 hk)
+        rw [hi.2.2 hk, ← h1]; exact ha.1
+    injection h with h; subst h
+    refine ⟨⟨?_, hcols, hi.2.2⟩, g.1, g.2, rfl, rfl, hg.1, hg.2.1, by omega, rfl, rfl⟩
+    simp only [W.capacity]; omega
+
+/-! ### histories -/
+
+/-- the public mutating calls on an existing object -/
+inductive Op where
+  | appendArray (a : Arr) (ts : Option (List Int)) (typesOk : Bool)
+  | appendWaveforms (os : List W)
+  | load (a : Arr) (copy : Bool) (start count : Option Int)
+  | setCount (v : Option Int)
+  | setCapacity (v : Option Int)
+  | setTiming (t : WTiming)
+  | write (i : Int) (row : Row)
+
+/-- one call: a rejected call leaves the object as it was -/
+def step (w : W) : Op → W
+  | .appendArray a ts ok => match appendArray w a ts ok with | .ok w' => w' | .error _ => w
+  | .appendWaveforms os => match appendWaveforms w os with | .ok (w', _) => w' | .error _ => w
+  | .load a c s n => match loadData w a c s n with | .ok w' => w' | .error _ => w
+  | .setCount v => match setCount w v with | .ok w' => w' | .error _ => w
+  | .setCapacity v => match setCapacity w v with | .ok w' => w' | .error _ => w
+  | .setTiming t => match setTiming w t with | .ok w' => w' | .error _ => w
+  | .write i row => match writeView w i row with | .ok w' => w' | .error _ => w
+
+/-- the arguments are well-formed NumPy arrays / waveforms of the same class / rows of the right width -/
+def ArgsOk (w : W) : Op → Prop
+  | .appendArray a _ _ => ArrOk a
+  | .appendWaveforms os => ∀ o ∈ os, Inv o ∧ o.kind = w.kind
+  | .load a _ _ _ => ArrOk a
+  | .write _ row => row.length = w.ncols
+  | _ => True
+
+theorem inv_step (w : W) (op : Op) (hi : Inv w) (ha : ArgsOk w op) : Inv (step w op) ∧ (step w op).ncols = w.ncols
+    ∧ (step w op).kind = w.kind := by
+  cases op with
+  | appendArray a ts ok =>
+    simp only [step]
+    cases h : appendArray w a ts ok with
+    | error e => exact ⟨hi, rfl, rfl⟩
+    | ok w' => obtain ⟨h1, _, _, h4, h5, _⟩ := appendArray_spec w a ts ok w' hi ha h; exact ⟨h1, h4, h5⟩
+  | appendWaveforms os =>
+    simp only [step]
+    cases h : appendWaveforms w os with
+    | error e => exact ⟨hi, rfl, rfl⟩
+    | ok p => obtain ⟨w', ws⟩ := p; obtain ⟨h1, _, _, h4, h5, _⟩ := appendWaveforms_spec w os w' ws hi ha h; exact ⟨h1, h4, h5⟩
+  | load a c s n =>
+    simp only [step]
+    cases h : loadData w a c s n with
+    | error e => exact ⟨hi, rfl, rfl⟩
+    | ok w' => obtain ⟨h1, _, _, _, _, _, _, _, h4, h5⟩ := loadData_spec w a c s n w' hi ha h; exact ⟨h1, h4, h5⟩
+  | setCount v =>
+    simp only [step]
+    cases h : setCount w v with
+    | error e => exact ⟨hi, rfl, rfl⟩
+    | ok w' =>
+      obtain ⟨h1, _, _, _, _, _, h4, h5⟩ := setCount_spec w v w' hi h
+      exact ⟨h1, h4, h5⟩
+  | setCapacity v =>
+    simp only [step]
+    cases h : setCapacity w v with
+    | error e => exact ⟨hi, rfl, rfl⟩
+    | ok w' => obtain ⟨h1, _, _, _, h4, h5, _⟩ := setCapacity_spec w v w' hi h; exact ⟨h1, h4, h5⟩
+  | setTiming t =>
+    simp only [step]
+    cases h : setTiming w t with
+    | error e => exact ⟨hi, rfl, rfl⟩
+    | ok w' =>
+      obtain ⟨h1, _, _, h4, h5⟩ := setTiming_spec w t w' hi h
+      exact ⟨h1, h4, h5⟩
+  | write i row =>
+    simp only [step]
+    cases h : writeView w i row with
+    | error e => exact ⟨hi, rfl, rfl⟩
+    | ok w' =>
+      obtain ⟨h1, _, h4, h5⟩ := writeView_spec w i row w' hi ha h
+      exact ⟨h1, h4, h5⟩
+
+/-- the history-level argument condition (each call's arguments are well-formed at the state it is applied to) -/
+def HistOk : W → List Op → Prop
+  | _, [] => True
+  | w, op :: ops => ArgsOk w op ∧ HistOk (step w op) ops
+
+/-- after ANY sequence of public mutating calls, valid and invalid interleaved:
+    0 ≤ start_index, start_index + sample_count ≤ capacity, the view has sample_count rows of signal_count columns -/
+theorem inv_reachable : ∀ (ops : List Op) (w : W), Inv w → HistOk w ops →
+    Inv (ops.foldl step w) ∧ (ops.foldl step w).view.length = (ops.foldl step w).count
+    ∧ RowsOk (ops.foldl step w).ncols (ops.foldl step w).view := by
+  intro ops
+  induction ops with
+  | nil => intro w hi _; exact ⟨hi, (view_shape w hi).1, (view_shape w hi).2⟩
+  | cons op ops ih =>
+    intro w hi hh
+    exact ih (step w op) (inv_step w op hi hh.1).1 hh.2
+
+/-- what a plain list of samples predicts for one call (`none`: the list model does not constrain the result
+    beyond the invariant — growing sample_count exposes buffer cells) -/
+def listStep (v : List Row) (w : W) : Op → Option (List Row)
+  | .appendArray a _ _ => some (v ++ a.rows)
+  | .appendWaveforms os => some (v ++ os.flatMap (·.view))
+  | .load a _ s n =>
+    some ((a.rows.drop (s.getD 0).toNat).take (n.getD ((a.rows.length : Int) - s.getD 0)).toNat)
+  | .setCount c => if (c.getD 0).toNat ≤ v.length then some (v.take (c.getD 0).toNat) else none
+  | .setCapacity _ => some v
+  | .setTiming _ => some v
+  | .write i row => some (v.set (if i < 0 then i + w.count else i).toNat row)
+
+def succeeds (w : W) : Op → Bool
+  | .appendArray a ts ok => (appendArray w a ts ok).isOk
+  | .appendWaveforms os => (appendWaveforms w os).isOk
+  | .load a c s n => (loadData w a c s n).isOk
+  | .setCount v => (setCount w v).isOk
+  | .setCapacity v => (setCapacity w v).isOk
+  | .setTiming t => (setTiming w t).isOk
+  | .write i row => (writeView w i row).isOk
+
+/-- the view's contents are exactly what the list model predicts: a successful call transforms the view as the
+    list operation does, a rejected call leaves it unchanged -/
+theorem view_refines (w : W) (op : Op) (hi : Inv w) (ha : ArgsOk w op) :
+    (succeeds w op = false → (step w op) = w)
+    ∧ (succeeds w op = true → ∀ v, listStep w.view w op = some v → (step w op).view = v) := by
+  cases op with
+  | appendArray a ts ok =>
+    simp only [succeeds, step, listStep]
+    cases h : appendArray w a ts ok with
+    | error e => simp [Except.isOk, Except.toBool]
+    | ok w' =>
+      refine ⟨by simp [Except.isOk, Except.toBool], fun _ v hv => ?_⟩
+      injection hv with hv; subst hv
+      exact (appendArray_spec w a ts ok w' hi ha h).2.1
+  | appendWaveforms os =>
+    simp only [succeeds, step, listStep]
+    cases h : appendWaveforms w os with
+    | error e => simp [Except.isOk, Except.toBool]
+    | ok p =>
+      obtain ⟨w', ws⟩ := p
+      refine ⟨by simp [Except.isOk, Except.toBool], fun _ v hv => ?_⟩
+      injection hv with hv; subst hv
+      exact (appendWaveforms_spec w os w' ws hi ha h).2.1
+  | load a c s n =>
+    simp only [succeeds, step, listStep]
+    cases h : loadData w a c s n with
+    | error e => simp [Except.isOk, Except.toBool]
+    | ok w' =>
+      refine ⟨by simp [Except.isOk, Except.toBool], fun _ v hv => ?_⟩
+      injection hv with hv; subst hv
+      obtain ⟨_, s', n', h1, _, h3, h4, _⟩ := loadData_spec w a c s n w' hi ha h
+      rw [h1]
+      have e1 : (s.getD 0).toNat = s' := by omega
+      have e2 : (n.getD ((a.rows.length : Int) - s.getD 0)).toNat = n' := by omega
+      rw [e1, e2]
+  | setCount c =>
+    simp only [succeeds, step, listStep]
+    cases h : setCount w c with
+    | error e => simp [Except.isOk, Except.toBool]
+    | ok w' =>
+      refine ⟨by simp [Except.isOk, Except.toBool], fun _ v hv => ?_⟩
+      obtain ⟨_, h2, _, _, _, h6, _, _⟩ := setCount_spec w c w' hi h
+      have hl := (view_shape w hi).1
+      split at hv
+      · injection hv with hv; subst hv
+        rename_i hle
+        have : w'.count = (c.getD 0).toNat := by omega
+        rw [h2 (by omega), this]
+      · cases hv
+  | setCapacity c =>
+    simp only [succeeds, step, listStep]
+    cases h : setCapacity w c with
+    | error e => simp [Except.isOk, Except.toBool]
+    | ok w' =>
+      refine ⟨by simp [Except.isOk, Except.toBool], fun _ v hv => ?_⟩
+      injection hv with hv; subst hv
+      exact (setCapacity_spec w c w' hi h).2.1
+  | setTiming t =>
+    simp only [succeeds, step, listStep]
+    cases h : setTiming w t with
+    | error e => simp [Except.isOk, Except.toBool]
+    | ok w' =>
+      refine ⟨by simp [Except.isOk, Except.toBool], fun _ v hv => ?_⟩
+      injection hv with hv; subst hv
+      exact (setTiming_spec w t w' hi h).2.1
+  | write i row =>
+    simp only [succeeds, step, listStep]
+    cases h : writeView w i row with
+    | error e => simp [Except.isOk, Except.toBool]
+    | ok w' =>
+      refine ⟨by simp [Except.isOk, Except.toBool], fun _ v hv => ?_⟩
+      injection hv with hv; subst hv
+      obtain ⟨_, ⟨j, _, hj, hv', _⟩, _, _⟩ := writeView_spec w i row w' hi ha h
+      rw [hv']; congr 1; omega
+
+-- non-vacuity: a concrete history (construct, append, load a sub-range without copying, append again)
+example : ((ctorNew .analog 4 true (some 2) none (some 1) (some 4) 0 [] none 0).bind fun w =>
+    (appendArray w ⟨4, 1, [[7], [8]], 1, true⟩ none true).bind fun w =>
+    (loadData w ⟨4, 1, [[1], [2], [3], [4]], 1, false⟩ false (some 1) (some 2)).map (·.view))
+    = .ok [[2], [3]] := by rfl
+
 end Props.C01
